@@ -49,20 +49,16 @@ def _create_override_tuple(key, has_value = True):
   return retval
 
 def _make_config_parser(cfg_file, overrides, additional, remove, species, exclude_flag):
-  override_dict = collections.OrderedDict()
+  # Overrides then removals, in the order given. They are applied one after the other (as the same edits
+  # made to the file by hand would be): a repeated override leaves the last value, an item cannot be removed twice.
+  overrides_list = []
   if not overrides is None:
     for override in itertools.chain.from_iterable(overrides):
-      over_tuple = _create_override_tuple(override)
-      k = (over_tuple.section, over_tuple.key)
-      override_dict[k] = over_tuple
+      overrides_list.append(_create_override_tuple(override))
 
   if not remove is None:
     for override in itertools.chain.from_iterable(remove):
-      over_tuple = _create_override_tuple(override, False)
-      k = (over_tuple.section, over_tuple.key)
-      override_dict[k] = over_tuple
-
-  overrides_list = list(override_dict.values())
+      overrides_list.append(_create_override_tuple(override, False))
 
   additional_list = []
   if not additional is None:
